@@ -95,6 +95,9 @@ class Contract(object):
         self.native_effect = d.get("native_effect")     # spec fn(args...) run by the native stub of an assumed summary
         self.log_entry = d.get("log_entry")       # spec fn(args...) -> tuple: appended to the ghost event log at
         #                                            every call of the target (pre-state), see spec.event_log()
+        self.interference = d.get("interference")   # spec fn(args...): what OTHER threads may do to the shared state
+        #                                              while this (long-running) callee executes; run at every
+        #                                              application of the summary, symbolically and in native stubs
         self.call_ghosts = d.get("call_ghosts")   # {callee qualname: (contract name, spec fn -> {ghost param: value})}:
         #                                            ghost witnesses this proof supplies when it applies that contract
         self.pure = d.get("pure")                 # 'str'|'bytes'|'int': result is a function of the arguments
